@@ -282,6 +282,53 @@ type callSite struct {
 }
 
 func (p *Prog) callersOf(target *ssa.Function) []callSite {
+	if p.callerIdx == nil {
+		p.buildCallerIndex()
+	}
+	return p.callerIdx[target]
+}
+
+// buildCallerIndex scans the repository once and records, per function, every call/go/defer
+// site and every use as a value.
+func (p *Prog) buildCallerIndex() {
+	p.callerIdx = map[*ssa.Function][]callSite{}
+	for _, r := range p.repoRels() {
+		for _, f := range p.SrcFuncs(r) {
+			for _, b := range f.Blocks {
+				for _, in := range b.Instrs {
+					var cc *ssa.CallCommon
+					kind := ""
+					switch x := in.(type) {
+					case *ssa.Call:
+						cc, kind = &x.Call, "call"
+					case *ssa.Go:
+						cc, kind = &x.Call, "go"
+					case *ssa.Defer:
+						cc, kind = &x.Call, "defer"
+					}
+					if cc != nil {
+						if g := cc.StaticCallee(); g != nil {
+							p.callerIdx[g] = append(p.callerIdx[g], callSite{f, in, kind})
+						}
+					}
+					for _, op := range in.Operands(nil) {
+						if *op == nil {
+							continue
+						}
+						if fn, ok := (*op).(*ssa.Function); ok {
+							if cc != nil && cc.Value == fn {
+								continue
+							}
+							p.callerIdx[fn] = append(p.callerIdx[fn], callSite{f, in, "value"})
+						}
+					}
+				}
+			}
+		}
+	}
+}
+
+func (p *Prog) callersOfSlow(target *ssa.Function) []callSite {
 	var out []callSite
 	for _, r := range p.repoRels() {
 		for _, f := range p.SrcFuncs(r) {
@@ -398,7 +445,14 @@ func phiTypeIs(s string) func(*ssa.Phi) bool {
 // uses are plain calls from functions already in the set (so that an
 // "extract helper" refactoring keeps code inside its owner).
 func (p *Prog) ownerClosure(run *ssa.Function) map[*ssa.Function]bool {
+	if m, ok := p.ownerMemo[run]; ok {
+		return m
+	}
 	set := map[*ssa.Function]bool{run: true}
+	if p.ownerMemo == nil {
+		p.ownerMemo = map[*ssa.Function]map[*ssa.Function]bool{}
+	}
+	p.ownerMemo[run] = set
 	if run == nil || run.Pkg == nil {
 		return set
 	}
